@@ -6,6 +6,7 @@ CONSTANTS
   VSizes = {12, 60, 101, 140}
   MaxKeys = 7
   EmitEdges = FALSE
+  EmitOneIn = 1
   WithReads = TRUE
 VIEW View
 INVARIANTS WellFormed Refines LookupsAgree Routing
